@@ -146,6 +146,21 @@ func c03Generate(w *c03World, rng *rand.Rand, n int) []c03Probe {
 			out = append(out, c03Probe{Registry: reg, Kind: "static-prefix+garbage:" + p.Name(), Data: append(append([]byte{}, pre...), randBytes(200)...), End: "deadline"})
 		}
 	}
+	// crafted tags whose Elligator representative decodes to a low-order point (all-zero representative,
+	// with every setting of the two masked top bits): the key agreement itself fails for these, which is
+	// a different code path from "tag does not match anything".  Bare and behind every static prefix,
+	// always followed by more data that must still be read.
+	for _, reg := range []string{"many", "prefix", "onemin"} {
+		for _, top := range []byte{0x00, 0x40, 0x80, 0xC0} {
+			for _, p := range vAllPrefixIDs {
+				pre := prefix.DefaultPrefixes[p].Bytes()
+				rep := make([]byte, 32)
+				rep[31] = top
+				data := append(append(append([]byte{}, pre...), rep...), randBytes(32+200)...)
+				out = append(out, c03Probe{Registry: reg, Kind: "low-order-representative:" + p.Name(), Data: data, Cuts: []int{len(pre) + 64, len(pre) + 64 + 50}, End: "deadline"})
+			}
+		}
+	}
 	for len(out) < n {
 		reg := registries[rng.Intn(len(registries))]
 		switch rng.Intn(6) {
